@@ -559,6 +559,7 @@ pub fn main(args: &[String]) {
         }
         for (desc, step) in &fails {
             let sig: String = desc.chars().map(|c| if c.is_ascii_digit() { '#' } else { c }).collect();
+            let sig = { let mut t = sig; while t.contains("##") { t = t.replace("##", "#"); } t };
             let sig = format!("C20:{}", sig);
             if seen_sig.insert(sig.clone()) || only.is_some() {
                 let file = o.out.join(format!("failure_C20_{}.json", idx));
